@@ -36,6 +36,21 @@ func main() {
 		os.Exit(cmdExplain(os.Args[2:]))
 	case "controls":
 		os.Exit(cmdControls(os.Args[2:]))
+	case "freeze-names":
+		p, err := Load(LoadOpts{Root: envOr("KVET_REPO", "/repo")})
+		if err != nil {
+			fmt.Fprintln(os.Stderr, "kvet: load failed:", err)
+			os.Exit(2)
+		}
+		b, _ := json.Marshal(freezeNames(p))
+		out := "names.json"
+		if len(os.Args) > 2 {
+			out = os.Args[2]
+		}
+		if err := os.WriteFile(out, b, 0o644); err != nil {
+			fmt.Fprintln(os.Stderr, err)
+			os.Exit(2)
+		}
 	case "list":
 		var ps []string
 		for p := range rules {
